@@ -953,7 +953,7 @@ def EnvironmentalScore_core (r0 : Nat) (r1 : Nat) (r2 : Nat) (r3 : Nat) (r4 : Na
   match (cond (Nat.beq ms (0 : Nat))
     (F64.flet (F64.mul (0x4019ae147ae147ae : Nat) miss) fun modifiedImpact =>
     modifiedImpact)
-    (F64.flet (F64.sub (F64.mul (0x401e147ae147ae14 : Nat) (F64.sub miss (0x3f9db22d0e560419 : Nat))) (F64.mul (0x400a000000000000 : Nat) (GenV31.pow15 (F64.sub miss (0x3f947ae147ae147b : Nat))))) fun modifiedImpact =>
+    (F64.flet (F64.sub (F64.mul (0x401e147ae147ae14 : Nat) (F64.sub miss (0x3f9db22d0e560419 : Nat))) (F64.mul (0x400a000000000000 : Nat) (GenV31.pow13 (F64.sub (F64.mul miss (0x3fef23a29c779a6b : Nat)) (0x3f947ae147ae147b : Nat))))) fun modifiedImpact =>
     modifiedImpact)) with
   | modifiedImpact =>
   F64.flet (F64.mul (F64.mul (F64.mul (F64.mul (0x402070a3d70a3d71 : Nat) (GenV31.attackVector mav)) (GenV31.attackComplexity mac)) (GenV31.privilegesRequired mpr ms)) (GenV31.userInteraction mui)) fun modifiedExploitability =>
